@@ -48,13 +48,18 @@ func vC20Retention(nOps int, pattern bool) {
 
 	var kept []vPubRec // reference: every retained publication, oldest first
 	s1sub := false
+	var otherSub wamp.ID
+	otherMatch := wamp.MatchPrefix // a policy other than the configured one, valid for the same URI
+	if pattern {
+		otherMatch = wamp.MatchWildcard
+	}
 	sopts := wamp.Dict{}
 	if pattern {
 		sopts["match"] = cfgMatch
 	}
 	for k := 0; k < nOps; k++ {
 		published := false
-		switch vChoice("op", 6) {
+		switch vChoice("op", 8) {
 		case 0, 1: // plain publication (twice as likely)
 			published = true
 			arg := vInt64("pub.arg")
@@ -94,6 +99,23 @@ func vC20Retention(nOps int, pattern bool) {
 			b.removeSession(s1.s)
 			vSyncBroker(b)
 			s1sub = false
+		case 6: // somebody subscribes to the very same URI under another match policy
+			if otherSub == 0 {
+				b.subscribe(s2.s, &wamp.Subscribe{Request: wamp.ID(400 + k), Topic: cfgTopic, Options: wamp.Dict{"match": otherMatch}})
+				vSyncBroker(b)
+				sd, n := vFindMsg[*wamp.Subscribed](s2.vDrain())
+				vAssert("other-policy-subscription-is-a-different-one", n == 1 && sd.Subscription != subID)
+				if n == 1 {
+					otherSub = sd.Subscription
+				}
+			}
+		case 7: // ... and goes away again
+			if otherSub != 0 {
+				b.unsubscribe(s2.s, &wamp.Unsubscribe{Request: wamp.ID(500 + k), Subscription: otherSub})
+				vSyncBroker(b)
+				otherSub = 0
+				vCover("other-policy-subscription-removed")
+			}
 		}
 		// live delivery next to retention: a publication reaches s1 exactly while it is subscribed
 		nEv := 0
